@@ -1,6 +1,7 @@
 import JjModel.Lemmas.RevsetFork
 import JjModel.Lemmas.RevsetHeadsRange
 import JjModel.Lemmas.RevsetReach
+import JjModel.Lemmas.RevsetMerge
 import JjModel.Lemmas.RevsetLatest
 /-!
   C19 lemmas, part 7: soundness of the engine model `eval` against the plan semantics
@@ -28,6 +29,8 @@ def OkR (g : Graph) : RExpr → Prop
   | .inter a b => OkR g a ∧ OkR g b
   | .diff a b => OkR g a ∧ OkR g b
   | .forkPoint x => OkR g x
+  | .mergePoint r h => OkR g r ∧ OkR g h
+  | .forks h => OkR g h
   | .latest x _ => OkR g x
   | .reachable s d => OkR g s ∧ OkR g d
 def OkP (g : Graph) : PExpr → Prop
@@ -262,6 +265,40 @@ theorem eval_spec (g : Graph) (hw : g.WF) : (r : RExpr) → OkR g r → EvalOk g
       have := (hh y hy).le hw.topo
       have := ih.lt y ((ih.mem y).2 hy)
       omega
+  | .mergePoint r h, hok => by
+    have ihr := eval_spec g hw r hok.1
+    have ihh := eval_spec g hw h hok.2
+    have hs := mergePoint_spec g hw (eval g h) (eval g r) ihh.lt
+    have hV : AncAll g (fun x => x ∈ eval g h) = AncAll g (denoteR g h) := by
+      have : (fun x => x ∈ eval g h) = denoteR g h := funext fun x => propext (ihh.mem x)
+      rw [this]
+    have hS : (fun x => x ∈ eval g r) = denoteR g r := funext fun x => propext (ihr.mem x)
+    have hm : ∀ p, p ∈ eval g (.mergePoint r h) ↔ denoteR g (.mergePoint r h) p := by
+      intro p
+      simp only [eval, denoteR]
+      rw [hs.2, hV, hS]
+    refine ⟨?_, ?_, hm⟩
+    · simp only [eval]; exact hs.1
+    · intro p hp
+      rw [hm] at hp
+      simp only [denoteR] at hp
+      exact ancAll_lt hw (fun x hx => ihh.lt x ((ihh.mem x).2 hx)) hp.2.1.1
+  | .forks h, hok => by
+    have ihh := eval_spec g hw h hok
+    have hs := forks_spec g hw (eval g h) ihh.lt
+    have hV : AncAll g (fun x => x ∈ eval g h) = AncAll g (denoteR g h) := by
+      have : (fun x => x ∈ eval g h) = denoteR g h := funext fun x => propext (ihh.mem x)
+      rw [this]
+    have hm : ∀ p, p ∈ eval g (.forks h) ↔ denoteR g (.forks h) p := by
+      intro p
+      simp only [eval, denoteR]
+      rw [hs.2, hV]
+    refine ⟨?_, ?_, hm⟩
+    · simp only [eval]; exact hs.1
+    · intro p hp
+      rw [hm] at hp
+      simp only [denoteR] at hp
+      exact ancAll_lt hw (fun x hx => ihh.lt x ((ihh.mem x).2 hx)) hp.1
   | .latest x n, hok => by
     have ih := eval_spec g hw x hok
     have hm : ∀ p, p ∈ eval g (.latest x n) ↔ denoteR g (.latest x n) p := by
